@@ -4,7 +4,7 @@ import random
 
 from harness import gen
 from harness import refcal as R
-from harness.common import MEANING, mk_dur, mk_tp, outcome, proj_dur, proj_tp, set_mode, tp_rec
+from harness.common import MEANING, mk_dur, mk_dur_via, mk_tp, outcome, proj_dur, proj_tp, set_mode, tp_rec
 
 PROP = "C05"
 MONTHS = [1, -1, 2, -2, 3, 11, -11, 12, -12, 13, -13, 23, 24, 25, -25, 6, -6]
@@ -15,8 +15,17 @@ def run_case(case, rec, cid):
     set_mode(case["mode"])
     rec.begin(cid)
     p = mk_tp(case["p"])
+    _one(case, rec, cid, p)
+    if case.get("also") is not None:      # the same instant written differently, same duration, same process (each judged as written)
+        from harness.common import respellings
+        for q in respellings(p, random.Random(case["also"])):
+            _one(case, rec, cid, q)
+    return True
+
+
+def _one(case, rec, cid, p):
     how = case["how"]
-    d = mk_dur(case["d"])
+    d = mk_dur_via(case["d"], case.get("dvia"))
     if how == "add":
         st, q = outcome(lambda: p + d)
     elif how == "radd":
@@ -108,7 +117,12 @@ def expand(job):
                 k_ = rnd.choice(["h", "mi", "s"])
                 d[k_] = d.get(k_, 0) + rnd.choice([0.5, 0.25, -0.75, 1.5])
             p = gen.rand_point(rnd, m, wide=rnd.random() < 0.2, whole=not fracp, allow24=not fracp)
-            yield {"mode": sp, "p": p, "d": d, "how": rnd.choice(["add", "radd", "sub"])}
+            case = {"mode": sp, "p": p, "d": d, "how": rnd.choice(["add", "radd", "sub"])}
+            if rnd.random() < 0.15:
+                case["dvia"] = "parse"      # the interval as DurationParser reads it (float components)
+            if not fracp and p["hh"] < 24 and abs(p["y"]) < 900000 and rnd.random() < 0.1:
+                case["also"] = rnd.randrange(10 ** 6)
+            yield case
     else:
         raise ValueError(k)
 
